@@ -75,7 +75,8 @@ LastVal(items, k) == items[CHOOSE i \in 1..Len(items) :
 \*           plus values put into a named layer / produced by a file fault since
 \* stale[k]  values some layer still held when a whole-cache put of another
 \*           value for k completed (signature of F12b when one is served)
-\* del       keys whose disk-layer file was deleted (errors are tolerated)
+\* del       <<layer, key>>: the file of the key in that disk layer was deleted (an error is tolerated from
+\*           that layer, and from a lookup that finds the key nowhere)
 \* mayx/mustx  <<layer, key>> entries that may / must be gone by the next tick
 \* trk       keys with a promotion-tracker entry, as the current code keeps it
 \*           (only used in the guard of F12a)
@@ -101,7 +102,7 @@ PutsOk(C, L, M, items) ==
               h == HitLayer(M, k)
           IN /\ \/ h > 0 /\ M[h][k] = v
                 \/ k # lastk /\ \E i \in LayersOf(L) : press(i)   \* evicted again by a later item of the batch
-                \/ \E i \in LayersOf(L) : TooBig(C, i, v)
+                \/ h = 0 /\ \E i \in LayersOf(L) : TooBig(C, i, v)   \* too large to be stored: then nothing answers, not an older value
              /\ \A i \in LayersOf(L) : M[i][k] \in {v, None, L[i][k]}
      /\ \A i \in LayersOf(L) : \A k2 \in DOMAIN L[i] \ ks :
           M[i][k2] = L[i][k2] \/ (M[i][k2] = None /\ press(i))
@@ -115,9 +116,12 @@ PromoFrame(C, L, M, ks) ==
         /\ \E k2 \in ks \ {k} : /\ i < HitLayer(L, k2) /\ M[i][k2] = First(L, k2)
                                  /\ Press(C, i, L[i], 1, Size(C, First(L, k2)))
 
+DelK(g, k) == \E p \in g.del : p[2] = k
+\* "an entry present only in a slower layer is still found": a layer that fails (its file was deleted) does
+\* not excuse the lookup while another layer holds the key; when none does, error or nothing are both fine
 GetOk(C, g, L, k, r, M) ==
   \/ r = First(L, k) /\ PromoFrame(C, L, M, {k})
-  \/ r = "err" /\ k \in g.del /\ Same(L, M)
+  \/ r = "err" /\ DelK(g, k) /\ First(L, k) = None /\ Same(L, M)
 
 Bound(C, L, n) == n >= 0 /\ n < Len(L)       \* 0-based layer index of an event
 
@@ -153,11 +157,11 @@ LayerOk(C, g, L, e, M) ==
                  THEN e.rs[n] \in ValsAt(L, e.ks[n]) \cup {None}    \* an earlier promotion may have evicted
                  ELSE e.rs[n] = First(L, e.ks[n])
             /\ PromoFrame(C, L, M, {e.ks[n] : n \in 1..Len(e.ks)})
-         \/ r = "err" /\ (\E n \in 1..Len(e.ks) : e.ks[n] \in g.del) /\ Same(L, M)
+         \/ r = "err" /\ (\E n \in 1..Len(e.ks) : DelK(g, e.ks[n]) /\ First(L, e.ks[n]) = None) /\ Same(L, M)
     [] e.op = "get_layer" ->
          IF ~Bound(C, L, e.layer) THEN r = "err" /\ Same(L, M)
          ELSE /\ \/ r = L[e.layer + 1][e.k]
-                 \/ r = "err" /\ e.k \in g.del /\ e.layer + 1 = DiskOf(C)
+                 \/ r = "err" /\ <<e.layer + 1, e.k>> \in g.del
               /\ Same(L, M)
     [] e.op = "promote" ->
          IF ~Bound(C, L, e.from) \/ ~Bound(C, L, e.to) THEN r = "err" /\ Same(L, M)
@@ -165,13 +169,13 @@ LayerOk(C, g, L, e, M) ==
                   t == e.to + 1
                   copy == /\ r = "true" /\ L[f][e.k] # None
                           /\ LayerPutOk(C, t, L[t], M[t], e.k, L[f][e.k]) /\ SameBut(L, M, t)
-              IN \/ r = "err" /\ e.k \in g.del /\ Same(L, M)
+              IN \/ r = "err" /\ <<f, e.k>> \in g.del /\ Same(L, M)
                  \/ f > t /\ (IF L[f][e.k] # None THEN copy ELSE r = "false" /\ Same(L, M))
                  \/ f <= t /\ ((r = "false" /\ Same(L, M)) \/ (f < t /\ copy))
     [] e.op = "remove" ->
          /\ \A i \in LayersOf(L) : M[i][e.k] = None /\ \A k2 \in DOMAIN L[i] \ {e.k} : M[i][k2] = L[i][k2]
          /\ \/ r = (IF First(L, e.k) # None THEN "true" ELSE "false")
-            \/ r \in {"true", "false"} /\ (e.k \in g.del \/ \E p \in g.mayx : p[2] = e.k)
+            \/ r \in {"true", "false"} /\ (DelK(g, e.k) \/ \E p \in g.mayx : p[2] = e.k)
     [] e.op = "clear" ->
          r = "ok" /\ \A i \in LayersOf(L) : \A k \in DOMAIN L[i] : M[i][k] = None
     [] e.op = "tick" -> Same(L, M)            \* expiry itself is handled by Verdict / TickOk
@@ -187,8 +191,10 @@ FaultVal(op, v, base) ==        \* the same naming as the driver's, for the mach
     [] op = "trunc0"  -> Nil
     [] op = "trunc1"  -> IF v \in base THEN v \o "-" ELSE IF v = Nil THEN Nil ELSE "other"
     [] op = "extend1" -> IF v \in base \cup {Nil} THEN v \o "+" ELSE "other"
+\* the disk layer whose file is hit: the event's 0-based "layer" if given, else the first disk layer
+FaultLayer(C, e) == IF "layer" \in DOMAIN e THEN e.layer + 1 ELSE DiskOf(C)
 FaultNext(C, L, e) ==
-  LET d == DiskOf(C) IN
+  LET d == FaultLayer(C, e) IN
   IF d = 0 \/ e.res # "true" THEN L
   ELSE [L EXCEPT ![d] = [k \in DOMAIN L[d] |-> IF k = e.k THEN e.now ELSE L[d][k]]]
 
@@ -246,9 +252,10 @@ GhostAfter(C, g, L, e, M) ==
                   ELSE IF e.op = "put_layer" /\ r = "ok" /\ k = e.k THEN g.stale[k] \ {e.v}
                   ELSE IF e.op = "clear" \/ (e.op = "remove" /\ k = e.k) THEN {}
                   ELSE g.stale[k]]
-      del1 == IF e.op = "delete" /\ r = "true" THEN g.del \cup {e.k}
+      del1 == IF e.op = "delete" /\ r = "true" THEN g.del \cup {<<FaultLayer(C, e), e.k>>}
               ELSE IF e.op = "clear" THEN {}
-              ELSE IF e.op = "remove" \/ (e.op = "put_layer" /\ r = "ok" /\ e.layer + 1 = DiskOf(C)) THEN g.del \ {e.k}
+              ELSE IF e.op = "remove" THEN {p \in g.del : p[2] # e.k}
+              ELSE IF e.op = "put_layer" /\ r = "ok" THEN g.del \ {<<e.layer + 1, e.k>>}
               ELSE g.del
       trk1 == IF wput THEN g.trk \cup ks
               ELSE IF e.op = "remove" \/ dropped THEN g.trk \ {e.k}
@@ -278,6 +285,9 @@ CONSTANTS Keys, Vals,     \* key and value names (strings)
 Cfg == [kinds |-> Kinds, caps |-> Caps, hooks |-> Hooks, budget |-> Budgets, policy |-> Policies, sizes |-> Sizes]
 NL  == Len(Kinds)
 Dk  == DiskOf(Cfg)
+DelKP(d, k) == \E p \in d : p[2] = k
+\* index entries a lookup of k passes on its way to the layer that answers (h, 0 = none does): each fails once
+Passed(d, k, h) == {p \in d : p[2] = k /\ (h = 0 \/ p[1] < h)}
 Idle == [op |-> "idle"]
 
 VARIABLES L,        \* the layers
@@ -287,7 +297,7 @@ VARIABLES L,        \* the layers
           cur,      \* the running get
           at,       \* layer being scanned / layer that hit
           shortE,   \* <<layer, key>> entries stored with a short TTL
-          delP,     \* keys in the disk index whose file is gone
+          delP,     \* <<layer, key>>: the disk layer's index has the key but its file is gone
           done,     \* last completed call with its result, Idle initially
           pre,      \* layers before the last completed call
           g, gp     \* ghost of part 1, now and before the last completed call
@@ -327,7 +337,7 @@ PutSet(Lx, k, v) ==
   {[i \in 1..NL |-> IF i = 1 THEN m
                     ELSE IF "F12b" \in Fixed THEN [Lx[i] EXCEPT ![k] = None] ELSE Lx[i]]
      : m \in LayerPutSet(1, Lx[1], k, v)}
-PutDelP(ks) == IF "F12b" \in Fixed THEN delP \ ks ELSE delP     \* the remove also drops a disk index entry whose file is gone
+PutDelP(ks) == IF "F12b" \in Fixed THEN {p \in delP : p[2] \notin ks} ELSE delP     \* the remove also drops a disk index entry whose file is gone
 RECURSIVE PutsSet(_, _, _)
 PutsSet(S, items, n) ==
   IF n > Len(items) THEN S
@@ -350,41 +360,42 @@ Atomic(e) ==
     [] e.op = "put_layer" ->
          IF e.layer >= NL THEN {Out(L, "err", trk, shortE, delP)}
          ELSE LET i == e.layer + 1 IN
-              {Out([L EXCEPT ![i] = m], "ok", trk, Touched(shortE, i, e.k), IF i = Dk THEN delP \ {e.k} ELSE delP)
+              {Out([L EXCEPT ![i] = m], "ok", trk, Touched(shortE, i, e.k), delP \ {<<i, e.k>>})
                  : m \in LayerPutSet(i, L[i], e.k, e.v)}
     [] e.op = "get_layer" ->
          IF e.layer >= NL THEN {Out(L, "err", trk, shortE, delP)}
-         ELSE IF e.layer + 1 = Dk /\ e.k \in delP THEN {Out(L, "err", trk, shortE, delP \ {e.k})}
+         ELSE IF <<e.layer + 1, e.k>> \in delP THEN {Out(L, "err", trk, shortE, delP \ {<<e.layer + 1, e.k>>})}
          ELSE {Out(L, L[e.layer + 1][e.k], trk, shortE, delP)}
     [] e.op = "promote" ->
          IF e.from >= NL \/ e.to >= NL THEN {Out(L, "err", trk, shortE, delP)}
          ELSE LET f == e.from + 1
                   t == e.to + 1
               IN IF f <= t THEN {Out(L, "false", trk, shortE, delP)}
-                 ELSE IF f = Dk /\ e.k \in delP THEN {Out(L, "err", trk, shortE, delP \ {e.k})}
+                 ELSE IF <<f, e.k>> \in delP THEN {Out(L, "err", trk, shortE, delP \ {<<f, e.k>>})}
                  ELSE IF L[f][e.k] = None THEN {Out(L, "false", trk, shortE, delP)}
                  ELSE {Out([L EXCEPT ![t] = m], "true", trk, Touched(shortE, t, e.k), delP)
                          : m \in LayerPutSet(t, L[t], e.k, L[f][e.k])}
     [] e.op = "remove" ->
-         {Out(NoKey(L, e.k), IF First(L, e.k) # None \/ e.k \in delP THEN "true" ELSE "false",
-              trk \ {e.k}, {p \in shortE : p[2] # e.k}, delP \ {e.k})}
+         {Out(NoKey(L, e.k), IF First(L, e.k) # None \/ DelKP(delP, e.k) THEN "true" ELSE "false",
+              trk \ {e.k}, {p \in shortE : p[2] # e.k}, {p \in delP : p[2] # e.k})}
     [] e.op = "clear" -> {Out(Empty, "ok", {}, {}, {})}
     [] e.op = "get_val" ->
          LET r0 == First(L, e.k)
-             d1 == IF HitLayer(L, e.k) = 0 \/ HitLayer(L, e.k) > Dk THEN delP \ {e.k} ELSE delP
+             d1 == delP \ Passed(delP, e.k, HitLayer(L, e.k))
          IN IF r0 = None THEN {Out(L, None, trk, shortE, d1)}
             ELSE IF Hooks /\ e.ck # None /\ r0 # e.ck
-                 THEN {Out(NoKey(L, e.k), "err", trk \ {e.k}, {p \in shortE : p[2] # e.k}, delP \ {e.k})}
+                 THEN {Out(NoKey(L, e.k), "err", trk \ {e.k}, {p \in shortE : p[2] # e.k}, {p \in delP : p[2] # e.k})}
                  ELSE {Out(L, r0, trk \cup {e.k}, shortE, d1)}
     [] e.op = "batch_get" ->
          LET ks == {e.ks[n] : n \in 1..Len(e.ks)} IN
          {Out(L, "ok", trk \cup {k \in ks : First(L, k) # None}, shortE,
-              delP \ {k \in ks : HitLayer(L, k) = 0 \/ HitLayer(L, k) > Dk})
+              delP \ UNION {Passed(delP, k, HitLayer(L, k)) : k \in ks})
             @@ [rs |-> [n \in 1..Len(e.ks) |-> First(L, e.ks[n])]]}
     [] e.op \in FaultOps ->
-         IF Dk > 0 /\ L[Dk][e.k] # None
-         THEN LET w == FaultVal(e.op, L[Dk][e.k], Vals) IN
-              {Out(WithKey(L, Dk, e.k, w), "true", trk, shortE, IF e.op = "delete" THEN delP \cup {e.k} ELSE delP) @@ [now |-> w]}
+         LET d == FaultLayer(Cfg, e) IN
+         IF d > 0 /\ d <= NL /\ Kinds[d] = "disk" /\ L[d][e.k] # None
+         THEN LET w == FaultVal(e.op, L[d][e.k], Vals) IN
+              {Out(WithKey(L, d, e.k, w), "true", trk, shortE, IF e.op = "delete" THEN delP \cup {<<d, e.k>>} ELSE delP) @@ [now |-> w]}
          ELSE {Out(L, "false", trk, shortE, delP) @@ [now |-> None]}
     [] e.op = "tick" -> {Out(Drop(L, shortE), "ok", trk, {}, delP)}
 
@@ -406,13 +417,15 @@ GetCall(e) ==
   /\ pc' = "scan" /\ cur' = e /\ at' = 1
   /\ UNCHANGED <<L, trk, lock, shortE, delP, done, pre, g, gp>>
 GetReturn(r) == Finish(cur, Out(L, r, trk, shortE, delP)) /\ pc' = "idle" /\ cur' = Idle /\ at' = 0
+\* (since e81be2a a get that found the key nowhere looks at the faster layers once more - for a caller that
+\* runs alone that second look sees what the first saw, so it is not a step of its own here)
 LayerGet ==        \* self.layers[at].get(key)
   /\ pc = "scan"
   /\ IF at > NL THEN GetReturn(None) /\ UNCHANGED lock
      ELSE IF L[at][cur.k] # None
           THEN pc' = "acqw" /\ UNCHANGED <<L, trk, lock, cur, at, shortE, delP, done, pre, g, gp>>
           ELSE /\ at' = at + 1
-               /\ delP' = IF at = Dk THEN delP \ {cur.k} ELSE delP    \* failed read drops the index entry
+               /\ delP' = delP \ {<<at, cur.k>>}    \* a failed read drops the index entry
                /\ UNCHANGED <<L, trk, lock, pc, cur, shortE, done, pre, g, gp>>
 AcquireTrackerW == \* self.promotion_tracker.write()
   /\ pc = "acqw" /\ lock = "free"
